@@ -16,7 +16,9 @@ static ENABLED: AtomicBool = AtomicBool::new(false);
 static DOUBLE_FREES: AtomicU64 = AtomicU64::new(0);
 
 struct State {
-    live: HashMap<usize, usize>,
+    /// address -> (size, serial number of the allocation)
+    live: HashMap<usize, (usize, u64)>,
+    serial: u64,
     freed: HashSet<usize>,
     first_double_free: Option<(usize, usize)>,
 }
@@ -46,7 +48,9 @@ unsafe impl GlobalAlloc for Tracking {
         if ENABLED.load(Ordering::Relaxed) && !p.is_null() {
             with_state(|s| {
                 s.freed.remove(&(p as usize));
-                s.live.insert(p as usize, l.size());
+                s.serial += 1;
+                let n = s.serial;
+                s.live.insert(p as usize, (l.size(), n));
             });
         }
         p
@@ -57,7 +61,9 @@ unsafe impl GlobalAlloc for Tracking {
         if ENABLED.load(Ordering::Relaxed) && !p.is_null() {
             with_state(|s| {
                 s.freed.remove(&(p as usize));
-                s.live.insert(p as usize, l.size());
+                s.serial += 1;
+                let n = s.serial;
+                s.live.insert(p as usize, (l.size(), n));
             });
         }
         p
@@ -95,7 +101,9 @@ unsafe impl GlobalAlloc for Tracking {
                         s.freed.insert(p as usize);
                     }
                     s.freed.remove(&(q as usize));
-                    s.live.insert(q as usize, new_size);
+                    s.serial += 1;
+                    let n = s.serial;
+                    s.live.insert(q as usize, (new_size, n));
                 } else if q != p {
                     // block from before the window moved: its new place may reuse a tracked address
                     s.freed.remove(&(q as usize));
@@ -109,7 +117,7 @@ unsafe impl GlobalAlloc for Tracking {
 /// opens a tracking window (tables start empty)
 pub fn begin() {
     BUSY.with(|b| b.set(true));
-    *STATE.lock().unwrap() = Some(State { live: HashMap::new(), freed: HashSet::new(), first_double_free: None });
+    *STATE.lock().unwrap() = Some(State { live: HashMap::new(), serial: 0, freed: HashSet::new(), first_double_free: None });
     BUSY.with(|b| b.set(false));
     DOUBLE_FREES.store(0, Ordering::Relaxed);
     ENABLED.store(true, Ordering::SeqCst);
@@ -130,7 +138,7 @@ pub fn active() -> bool {
     ENABLED.load(Ordering::Relaxed)
 }
 
-/// size of the live block starting at `p`, if it was allocated inside the window
-pub fn live_size(p: usize) -> Option<usize> {
+/// (size, serial number) of the live block starting at `p`, if it was allocated inside the window
+pub fn live_block(p: usize) -> Option<(usize, u64)> {
     with_state(|s| s.live.get(&p).copied()).flatten()
 }
